@@ -78,6 +78,7 @@ PLANS = {
         "bounds": "exhaustive: every enabled step (19 functions x arguments drawn from the current documents x source/destination registers) from every pair of start documents; random walks of the state machine: quick 1500 walks x 6 steps, thorough 8000 x 10, each replayed on the real crate with its own output bytes threaded from call to call and all results appended to one buffer",
     },
     "C08": {
+        "drive": [{"kind": "path", "count": {"quick": 3000, "thorough": 40000}}],
         "must_see": ["select:select"],
         "gen": [
             {"name": "nav", "module": "GenPath", "constants": {"Family": '"nav"'}, "tier_constants": {"quick": {"MaxSteps": "2"}, "thorough": {"MaxSteps": "2"}}},
@@ -98,6 +99,7 @@ PLANS = {
         "bounds": "~600 syntax trees (every step kind with 8 names incl. ones needing quotes, 22 index lists incl. i32 extremes, 23 literals of every scalar kind incl. negative/fractional/exponent/empty-string/escaped, all comparison operators, 14 &&/||/parenthesis/exists nestings, leading-name form, predicates) x 6 spelling styles (3 spacings x 3 keyword cases x quoted/bare names) x 2 float lexeme tables; 13 certainly-invalid edits per tree; all byte soups of <=3 bytes over 20 characters",
     },
     "C15": {
+        "drive": [{"kind": "path", "count": {"quick": 3000, "thorough": 40000}}],
         "gen": [
             {"name": "nav", "module": "GenPath", "constants": {"Family": '"nav"'}, "tier_constants": {"quick": {"MaxSteps": "2"}, "thorough": {"MaxSteps": "2"}}},
             {"name": "filter", "module": "GenPath", "constants": {"Family": '"filter"', "MaxSteps": "0"}},
@@ -156,7 +158,7 @@ PLANS = {
         "bounds": "the C03 universe: strings of every code-point class as values and keys, every finite number of the boundary set (u64/i64 extremes), nested empty containers",
     },
     "C17": {
-        "drive": [{"kind": "edit", "count": {"quick": 2400, "thorough": 30000}}, {"kind": "pairs:concat", "count": {"quick": 900, "thorough": 10000}}],
+        "drive": [{"kind": "edit", "count": {"quick": 2400, "thorough": 30000}}, {"kind": "pairs:concat", "count": {"quick": 900, "thorough": 10000}}, {"kind": "path", "count": {"quick": 1500, "thorough": 20000}}],
         "gen": [gen("edit11", "edit11", EDIT_OPS + ["array_distinct"], tiers=("quick",)),
                 gen("edit", "edit", EDIT_OPS + ["array_distinct"], wq=1, wt=2, tiers=("thorough",)),
                 gen("pairs", "pairs11", ["concat", "array_intersection", "array_except"], tiers=("quick",)),
@@ -176,8 +178,9 @@ PLANS = {
         "drive": [{"kind": "num", "count": {"quick": 6000, "thorough": 80000}}],
         "gen": [{"name": "laws", "module": "Laws", "constants": {"Family": '"num"', "Stride": "1"}, "invariants": ["LawInv"]},
                 gen("num", "num", ["num", "num_decode", "casts"]),
-                gen("numpairs", "numpairs", ["num_cmp"])],
-        "bounds": "80-number boundary set (every width boundary +-1 of both integer encodings, 2^53/2^63/2^64 neighbourhoods, IEEE class boundaries): all numbers, all ordered pairs; decoder: 11 tags x 3 fillers x lengths 0..10",
+                gen("numpairs", "numpairs", ["num_cmp"]),
+                gen("sweep16", "sweep16", ["num", "num_cmp"], tiers=("thorough",))],
+        "bounds": "80-number boundary set (every width boundary +-1 of both integer encodings, 2^53/2^63/2^64 neighbourhoods, IEEE class boundaries): all numbers, all ordered pairs, all triples for the order laws; decoder: 11 tags x 3 fillers x lengths 0..18,31..33,64; thorough: exhaustive sweep of every 16-bit unsigned, signed and (top-16-bit) binary64 pattern",
     },
     "C20": {
         "must_see": ["deep:ok"],
